@@ -1,7 +1,7 @@
 SPECIFICATION Spec
 CONSTANTS
   DataFields = {"a", "b"}
-  Vals = {"s:x", "i:7", "f:2.5", "s:p,q"}
+  Vals = {"s:x", "f:2.5", "s:p,q"}
   DelimVals = {"s:p,q"}
   MaxSpans = 2
   CfgNames = {"a", "ab", "ra", "a_rb", "a_ra", "ab_ra", "ra_rb"}
